@@ -1,6 +1,7 @@
 // Harnesses for src/async_io/mod.rs (C08, C09, C10, C12, parts of C07/C11).
 // @requires parser/stream.rs
 // @requires parser/request.rs
+// @requires protocol/body.rs
 // The transport is a nondeterministic stub (DESIGN.md E7): every poll_read / poll_write(_vectored) call returns
 // Pending, Ready(Ok(k)) for a symbolic 1 <= k <= len, Ok(0), or an error, within a stated call budget.
 use super::*;
@@ -192,7 +193,7 @@ fn c08_poll_input_owes_getvalues() {
 /// Checking transport for the writer harnesses: knows the ONE record that must appear on the wire and checks every
 /// vectored write against it on the fly (offered bytes == exactly the not-yet-sent rest of the record); accepts a
 /// symbolic number of bytes.  No byte log (symbolic-index array WRITES are what makes CBMC run out of memory).
-pub(crate) struct ExpectW { pub exp: [u8; 40], pub exp_len: usize, pub pos: usize, pub calls: usize, pub pend_budget: usize, pub partial_budget: usize }
+pub(crate) struct ExpectW { pub exp: [u8; 40], pub exp_len: usize, pub pos: usize, pub calls: usize, pub pend_budget: usize, pub partial_budget: usize, pub fail_at: usize, pub fail_zero: bool }
 impl AsyncWrite for ExpectW {
     fn poll_write(self: Pin<&mut Self>, cx: &mut Context<'_>, buf: &[u8]) -> Poll<io::Result<usize>> {
         let bufs = [IoSlice::new(buf)];
@@ -215,6 +216,11 @@ impl AsyncWrite for ExpectW {
             j += 1;
         }
         assert!(total == this.exp_len - this.pos, "C10: a vectored write must offer exactly the rest of the record");
+        if unsafe { GW_FAILED } { unsafe { GW_AFTER_FAIL += 1; } }
+        if this.fail_at != 0 && this.calls == this.fail_at {
+            unsafe { GW_FAILED = true; }
+            return if this.fail_zero { Poll::Ready(Ok(0)) } else { Poll::Ready(Err(io::ErrorKind::BrokenPipe.into())) };
+        }
         if this.pend_budget > 0 && kani::any() { this.pend_budget -= 1; return Poll::Pending; }
         let mut k = total;
         if this.partial_budget > 0 && total > 1 {
@@ -230,7 +236,13 @@ impl AsyncWrite for ExpectW {
     fn poll_close(self: Pin<&mut Self>, _cx: &mut Context<'_>) -> Poll<io::Result<()>> { Poll::Ready(Ok(())) }
 }
 
-fn writer_case<const N: usize>() {
+fn writer_case<const N: usize>() { writer_case_f::<N>(false) }
+
+fn writer_case_f<const N: usize>(wfault: bool) {
+    unsafe { GW_FAILED = false; GW_AFTER_FAIL = 0; }
+    // write-side fault injection (C12): one of the first three write calls fails with an error or a zero-length write
+    let fail_at: usize = if wfault { let x: usize = kani::any(); kani::assume(1 <= x && x <= 3); x } else { 0 };
+    let fail_zero: bool = wfault && kani::any();
     let payload: [u8; N] = kani::any();
     let id: u16 = kani::any();
     kani::assume(id != 0);
@@ -239,7 +251,7 @@ fn writer_case<const N: usize>() {
     let mut exp = [0u8; 40];
     exp[0] = 1; exp[1] = u8::from(stream); exp[2] = (id >> 8) as u8; exp[3] = id as u8; exp[4] = (N >> 8) as u8; exp[5] = N as u8; exp[6] = pad as u8;
     let mut i = 0; while i < N { exp[8 + i] = payload[i]; i += 1; }
-    let arc = Arc::new(Mutex::new(ExpectW { exp, exp_len: 8 + N + pad, pos: 0, calls: 0, pend_budget: 1, partial_budget: 3 }));
+    let arc = Arc::new(Mutex::new(ExpectW { exp, exp_len: 8 + N + pad, pos: 0, calls: 0, pend_budget: 1, partial_budget: 3, fail_at, fail_zero }));
     let mut sw = StreamWriter { writer: arc.clone(), lock: None, head: fcgi::RecordHeader::new(stream, id), head_idx: 0, orig_len: 0 };
     let mut cx = noop_cx();
     let mut pendings = 0;
@@ -249,12 +261,26 @@ fn writer_case<const N: usize>() {
             Poll::Pending => {
                 pendings += 1;
                 assert!(pendings <= 1, "transport gives at most one Pending");
+                assert!(!unsafe { GW_FAILED }, "C12: a failed or zero-length write leaves the write pending instead of ending it with an error");
                 assert!(arc.try_lock().is_none(), "C10: output lock released while a record is in progress (another writer could interleave)");
                 kani::cover!(true, "suspended in the middle of a record");
             }
         }
     };
-    let n = match res { Ok(n) => n, Err(e) => { std::mem::forget(e); panic!("transport never fails in this harness") } };
+    let n = match res {
+        Ok(n) => { assert!(!unsafe { GW_FAILED }, "C12: a failed or zero-length write was swallowed (the write reports success)"); n }
+        Err(e) => {
+            let k = e.kind(); std::mem::forget(e);
+            assert!(unsafe { GW_FAILED }, "write failed although the transport never failed");
+            assert!(k == if fail_zero { io::ErrorKind::WriteZero } else { io::ErrorKind::BrokenPipe }, "C12: a write failure must surface as the transport's error, a zero-length write as WriteZero");
+            assert!(unsafe { GW_AFTER_FAIL } == 0, "C12: something was written after a failed write");
+            // everything offered before the failure was checked against the record by the transport (prefix of a well-formed record)
+            kani::cover!(fail_zero && fail_at == 2, "zero-length write in the middle of a record");
+            kani::cover!(!fail_zero && fail_at == 3, "error on the third write");
+            std::mem::forget(sw);
+            return;
+        }
+    };
     assert!(n == N, "C10: a successful write must report exactly the payload length");
     assert!(sw.lock.is_none() && sw.head.content_length == 0 && sw.head.padding_length == 0, "writer not reset after a complete record");
     let g = arc.try_lock().expect("C10: output lock still held after a complete record");
@@ -273,17 +299,24 @@ macro_rules! writer_harness {
     };
 }
 
-// @harness name=c10_writer_3 props=C10,C07 tier=quick timeout=2400 rmbody=ioerr,nogrow,nowaiters mem=20 unwindset=StreamWriter<.*>.as.futures_util::AsyncWrite>::poll_write$:6;drop_glue::<.slab::Entry<.*>.>$:2
+// @harness name=c10_writer_3 props=C10,C07 tier=quick timeout=2400 rmbody=ioerr,nogrow,nowaiters mem=20 unwindset=StreamWriter<.*>.as.futures_util::AsyncWrite>::poll_write$:6;drop_glue::<.slab::Entry<.*>.>$:2 dead=2
 // @bound one StreamWriter (Stdout|Stderr, any id), payload of 3 symbolic bytes (5 padding bytes); the transport checks every vectored write against the expected record and accepts any 1..n bytes with <= 3 short writes (cuts inside the header, at the seams, inside the padding) and <= 1 Pending; polled to completion
 // @functions StreamWriter::poll_write, RepeatableLockFuture::poll, RecordHeader::{set_lengths,to_bytes,padding_bytes}
 writer_harness!(c10_writer_3, 3);
 
-// @harness name=c10_writer_8 props=C10 tier=quick timeout=2400 rmbody=ioerr,nogrow,nowaiters mem=20 unwindset=StreamWriter<.*>.as.futures_util::AsyncWrite>::poll_write$:6;drop_glue::<.slab::Entry<.*>.>$:2
+// @harness name=c12_writer_fault_3 props=C12,C10 tier=quick timeout=2400 rmbody=ioerr,nogrow,nowaiters mem=20 unwindset=StreamWriter<.*>.as.futures_util::AsyncWrite>::poll_write$:6;drop_glue::<.slab::Entry<.*>.>$:2 dead=1
+// @bound as c10_writer_3, with a write-side fault: the 1st, 2nd or 3rd vectored write returns an error or a zero-length write; poll_write must end with that error resp. WriteZero, nothing is offered to the transport afterwards, and everything offered before was a prefix of the one expected record (checked by the transport)
+// @functions StreamWriter::poll_write (error / WriteZero paths)
+#[kani::proof]
+#[kani::unwind(10)]
+fn c12_writer_fault_3() { writer_case_f::<3>(true); }
+
+// @harness name=c10_writer_8 props=C10 tier=quick timeout=2400 rmbody=ioerr,nogrow,nowaiters mem=20 unwindset=StreamWriter<.*>.as.futures_util::AsyncWrite>::poll_write$:6;drop_glue::<.slab::Entry<.*>.>$:2 dead=2
 // @bound as c10_writer_3 with a payload of 8 symbolic bytes (no padding)
 // @functions StreamWriter::poll_write
 writer_harness!(c10_writer_8, 8);
 
-// @harness name=c10_writer_9 props=C10 tier=thorough timeout=6000 rmbody=ioerr,nogrow,nowaiters mem=24 unwindset=StreamWriter<.*>.as.futures_util::AsyncWrite>::poll_write$:6;drop_glue::<.slab::Entry<.*>.>$:2
+// @harness name=c10_writer_9 props=C10 tier=thorough timeout=6000 rmbody=ioerr,nogrow,nowaiters mem=24 unwindset=StreamWriter<.*>.as.futures_util::AsyncWrite>::poll_write$:6;drop_glue::<.slab::Entry<.*>.>$:2 dead=2
 // @bound as c10_writer_3 with a payload of 9 symbolic bytes (7 padding bytes)
 // @functions StreamWriter::poll_write
 writer_harness!(c10_writer_9, 9);
@@ -472,7 +505,7 @@ fn close_case(keep_conn: bool, pending_out: usize, raw_extra: usize) {
     let mut i = 0; while i < pending_out { exp[n] = 0xD0 + i as u8; n += 1; i += 1; }
     let tail: [u8; 32] = [1, 6, h, l, 0, 0, 0, 0,  1, 7, h, l, 0, 0, 0, 0,  1, 3, h, l, 0, 8, 0, 0,  a[0], a[1], a[2], a[3], ps, 0, 0, 0];
     let mut i = 0; while i < 32 { exp[n] = tail[i]; n += 1; i += 1; }
-    let w = ExpectW { exp, exp_len: n, pos: 0, calls: 0, pend_budget: 1, partial_budget: 2 };
+    let w = ExpectW { exp, exp_len: n, pos: 0, calls: 0, pend_budget: 1, partial_budget: 2, fail_at: 0, fail_zero: false };
     let req = Request { parser, input: CountR::new(0, 0), output: Arc::new(Mutex::new(w)), lock: None, writeable: true };
     let mut fut = std::mem::ManuallyDrop::new(req.close(status));
     let mut polls = 0;
@@ -499,7 +532,76 @@ fn close_case(keep_conn: bool, pending_out: usize, raw_extra: usize) {
     }
 }
 
-// @harness name=c07_close_keep_writeable props=C07,C11 tier=manual timeout=7000 rmbody=ioerr,nogrow,nonv,nowaiters,nodropreq,nopollinput mem=20 unwindset=verif_kani::close_case$:34;WriteAll<.*>.as.futures_util::Future>::poll$:4;drop_glue::<.slab::Entry<.*>.>$:2
+fn close_light_case(keep_conn: bool, pending_out: usize, raw_extra: usize, w_pend: usize, w_partial: usize) {
+    let cfg = sv::cfg1();
+    let mut raw = [0u8; sv::B];
+    let extra: [u8; 4] = kani::any();
+    let mut i = 0; while i < raw_extra { raw[i] = extra[i]; i += 1; }
+    let mut out = Vec::with_capacity(32);
+    // pending management replies are the marker bytes 0xAB 0xCD (see OrderW); the epilogue of request 7 / Overloaded has no such byte
+    if pending_out == 2 { out.push(0xAB); out.push(0xCD); }
+    let mut parser = sv::mk_code(&cfg, raw, (0, 0, 0, raw_extra), 1, fcgi::Role::Responder, 7, None, 0, 0, out, 0);
+    parser.request.flags = fcgi::RequestFlags::from(if keep_conn { 1 } else { 0 });
+    let w = OrderW { len: 0, calls: 0, pend_budget: w_pend, partial_budget: w_partial, epilogue_started: false };
+    let req = Request { parser, input: CountR::new(0, 0), output: Arc::new(Mutex::new(w)), lock: None, writeable: true };
+    unsafe { crate::protocol::body::verif_kani::GE_ARGS = (0, 0, 0, 0); }
+    let mut fut = std::mem::ManuallyDrop::new(req.close(ExitStatus::Overloaded));
+    let mut polls = 0;
+    let res = loop {
+        let pinned = unsafe { Pin::new_unchecked(&mut *fut) };
+        match poll_once(pinned) { Poll::Ready(r) => break r, Poll::Pending => { polls += 1; assert!(polls <= w_pend, "only a Pending writer may make close() wait"); kani::cover!(true, "close() suspended on the writer"); } }
+    };
+    assert!(unsafe { crate::protocol::body::verif_kani::GE_ARGS } == (7, 2, 2, 1), "C07: the end-of-request records must be built once, for this request's id, the handler's exit status and both output streams of a writeable Responder");
+    match res {
+        Ok((rp, _r, w)) => {
+            assert!(keep_conn, "C07: connection reused although the request did not set the keep-connection flag");
+            assert!(w.len == pending_out + crate::protocol::body::verif_kani::EPI_MODEL_LEN, "C07: bytes written at request end are not [pending replies] + the end-of-request records");
+            let (il, cap, is_header, out_empty) = crate::parser::request::verif_kani::x_parser(&rp);
+            assert!(il == raw_extra && cap == sv::B && is_header && out_empty, "C05/C07: next request parser must start with exactly the look-ahead bytes");
+            let mut i = 0; while i < raw_extra { assert!(crate::parser::request::verif_kani::x_byte(&rp, i) == extra[i], "look-ahead bytes changed"); i += 1; }
+            kani::cover!(true, "connection reused");
+            std::mem::forget(rp); std::mem::forget(w);
+        }
+        Err(e) => {
+            assert!(!keep_conn, "C07: connection dropped although keep-connection was requested and no I/O error occurred");
+            assert!(e.kind() == io::ErrorKind::ConnectionReset, "C07: close without keep-connection must end with ConnectionReset");
+            std::mem::forget(e);
+            kani::cover!(true, "connection closed after the request");
+        }
+    }
+}
+
+// @harness name=c07_close_order_keep props=C07,C11 tier=quick timeout=2400 rmbody=ioerr,nogrow,nonv,nowaiters,nodropreq,nopollinput,noparse mem=30 unwindset=WriteAll<.*>.as.futures_util::Future>::poll$:4;drop_glue::<.slab::Entry<.*>.>$:2 dead=2
+// @bound Request::close(Overloaded) of request 7 at a record boundary with all input consumed (writeable), KeepConn set, 2 bytes of pending management replies (markers) and 3 bytes of look-ahead for the next request; make_request_epilogue replaced by a length-only model that records its arguments (its bytes: c17_epilogue_*); the transport checks the ORDER (no reply byte after an epilogue byte) and counts; it accepts every write completely and at once (one poll)
+// @functions Request::close, Request::writeable, Request::record_boundary (at a boundary), make_request_epilogue, stream::Parser::into_request_parser
+#[kani::proof]
+#[kani::unwind(6)]
+#[kani::stub(std::hash::RandomState::new, fixed_random_state)]
+#[kani::stub(alloc::fmt::format, crate::verif_kani::fmt_format_stub)]
+#[kani::stub(fcgi::body::make_request_epilogue, crate::protocol::body::verif_kani::epilogue_model)]
+fn c07_close_order_keep() { close_light_case(true, 2, 3, 0, 0); }
+
+// @harness name=c07_close_order_nokeep props=C07 tier=quick timeout=2400 rmbody=ioerr,nogrow,nonv,nowaiters,nodropreq,nopollinput,noparse mem=30 unwindset=WriteAll<.*>.as.futures_util::Future>::poll$:4;drop_glue::<.slab::Entry<.*>.>$:2 dead=2
+// @bound as c07_close_order_keep without KeepConn and without look-ahead: the epilogue is written, then the connection ends with ConnectionReset
+// @functions Request::close, make_request_epilogue
+#[kani::proof]
+#[kani::unwind(6)]
+#[kani::stub(std::hash::RandomState::new, fixed_random_state)]
+#[kani::stub(alloc::fmt::format, crate::verif_kani::fmt_format_stub)]
+#[kani::stub(fcgi::body::make_request_epilogue, crate::protocol::body::verif_kani::epilogue_model)]
+fn c07_close_order_nokeep() { close_light_case(false, 2, 0, 0, 0); }
+
+// @harness name=c07_close_order_keep_pending props=C07,C11 tier=manual timeout=6000 rmbody=ioerr,nogrow,nonv,nowaiters,nodropreq,nopollinput,noparse mem=40 est=25 unwindset=WriteAll<.*>.as.futures_util::Future>::poll$:4;drop_glue::<.slab::Entry<.*>.>$:2 dead=1
+// @bound as c07_close_order_keep, but the transport may return Pending once and accept one write only partly (close() polled up to twice)
+// @functions Request::close, futures_util WriteAll
+#[kani::proof]
+#[kani::unwind(6)]
+#[kani::stub(std::hash::RandomState::new, fixed_random_state)]
+#[kani::stub(alloc::fmt::format, crate::verif_kani::fmt_format_stub)]
+#[kani::stub(fcgi::body::make_request_epilogue, crate::protocol::body::verif_kani::epilogue_model)]
+fn c07_close_order_keep_pending() { close_light_case(true, 2, 3, 1, 1); }
+
+// @harness name=c07_close_keep_writeable props=C07,C11 tier=manual timeout=7000 rmbody=ioerr,nogrow,nonv,nowaiters,nodropreq,nopollinput,noparse mem=20 unwindset=verif_kani::close_case$:34;WriteAll<.*>.as.futures_util::Future>::poll$:4;drop_glue::<.slab::Entry<.*>.>$:2
 // @bound Request::close at a record boundary with all input consumed (writeable), KeepConn set, 2 bytes of pending management replies, 3 bytes of look-ahead for the next request; every ExitStatus (all u32 app statuses) and request id; the transport checks every write against the expected byte sequence and accepts any split (<= 2 short writes) and <= 1 Pending
 // @functions Request::close, Request::writeable, Request::record_boundary, make_request_epilogue, stream::Parser::into_request_parser
 #[kani::proof]
@@ -509,7 +611,7 @@ fn close_case(keep_conn: bool, pending_out: usize, raw_extra: usize) {
 #[kani::stub(alloc::fmt::format, crate::verif_kani::fmt_format_stub)]
 fn c07_close_keep_writeable() { close_case(true, 2, 3); }
 
-// @harness name=c07_close_nokeep props=C07 tier=manual timeout=7000 rmbody=ioerr,nogrow,nonv,nowaiters,nodropreq,nopollinput mem=20 unwindset=verif_kani::close_case$:34;WriteAll<.*>.as.futures_util::Future>::poll$:4;drop_glue::<.slab::Entry<.*>.>$:2
+// @harness name=c07_close_nokeep props=C07 tier=manual timeout=7000 rmbody=ioerr,nogrow,nonv,nowaiters,nodropreq,nopollinput,noparse mem=20 unwindset=verif_kani::close_case$:34;WriteAll<.*>.as.futures_util::Future>::poll$:4;drop_glue::<.slab::Entry<.*>.>$:2
 // @bound as above without KeepConn, no pending replies, no look-ahead
 // @functions Request::close, make_request_epilogue
 #[kani::proof]
@@ -526,16 +628,19 @@ fn c07_close_nokeep() { close_case(false, 0, 0); }
 
 /// Transport stubs for the glue harnesses (parser replaced by its contract): only COUNT bytes - contents are
 /// irrelevant there, and byte-copy loops with symbolic bounds are what makes CBMC run out of memory.
-pub(crate) struct CountR { pub avail: usize, pub pos: usize, pub calls: usize, pub pend_budget: usize, pub fail: u8, pub last_pending: bool, pub said_eof: bool, pub said_err: bool }
-impl CountR { pub(crate) fn new(avail: usize, pend_budget: usize) -> Self { CountR { avail, pos: 0, calls: 0, pend_budget, fail: 0, last_pending: false, said_eof: false, said_err: false } } }
+pub(crate) struct CountR { pub avail: usize, pub pos: usize, pub calls: usize, pub pend_budget: usize, pub fail: u8, pub last_pending: bool, pub said_eof: bool, pub said_err: bool,
+                            pub empty_reads: usize,   // reads into a zero-length buffer (answered with Ok(0), which is NOT an end of file)
+                            pub max_calls: usize }    // 0 = no limit; otherwise the transport reports EOF / its error from this call on
+impl CountR { pub(crate) fn new(avail: usize, pend_budget: usize) -> Self { CountR { avail, pos: 0, calls: 0, pend_budget, fail: 0, last_pending: false, said_eof: false, said_err: false, empty_reads: 0, max_calls: 0 } } }
 impl AsyncRead for CountR {
     fn poll_read(self: Pin<&mut Self>, _cx: &mut Context<'_>, buf: &mut [u8]) -> Poll<io::Result<usize>> {
         let this = self.get_mut();
         this.calls += 1;
         this.last_pending = false;
         if this.pend_budget > 0 && kani::any() { this.pend_budget -= 1; this.last_pending = true; return Poll::Pending; }
-        let left = this.avail - this.pos;
-        if left == 0 || buf.is_empty() {
+        if buf.is_empty() { this.empty_reads += 1; return Poll::Ready(Ok(0)); }
+        let left = if this.max_calls != 0 && this.calls >= this.max_calls { 0 } else { this.avail - this.pos };
+        if left == 0 {
             if this.fail == 1 { this.said_err = true; return Poll::Ready(Err(io::ErrorKind::BrokenPipe.into())); }
             this.said_eof = true;
             return Poll::Ready(Ok(0));
@@ -546,14 +651,21 @@ impl AsyncRead for CountR {
         Poll::Ready(Ok(k))
     }
 }
-pub(crate) struct CountW { pub len: usize, pub calls: usize, pub pend_budget: usize, pub partial_budget: usize, pub fail_at: usize, pub failed: bool, pub writes_after_fail: usize }
-impl CountW { pub(crate) fn new(pend_budget: usize, partial_budget: usize) -> Self { CountW { len: 0, calls: 0, pend_budget, partial_budget, fail_at: 0, failed: false, writes_after_fail: 0 } } }
+/// ghost copies of CountW's fault bookkeeping (readable while the request keeps the output lock)
+pub(crate) static mut GW_FAILED: bool = false;
+pub(crate) static mut GW_AFTER_FAIL: usize = 0;
+pub(crate) struct CountW { pub len: usize, pub calls: usize, pub pend_budget: usize, pub partial_budget: usize, pub fail_at: usize, pub fail_zero: bool, pub failed: bool, pub writes_after_fail: usize }
+impl CountW { pub(crate) fn new(pend_budget: usize, partial_budget: usize) -> Self { CountW { len: 0, calls: 0, pend_budget, partial_budget, fail_at: 0, fail_zero: false, failed: false, writes_after_fail: 0 } } }
 impl AsyncWrite for CountW {
     fn poll_write(self: Pin<&mut Self>, _cx: &mut Context<'_>, buf: &[u8]) -> Poll<io::Result<usize>> {
         let this = self.get_mut();
         this.calls += 1;
-        if this.failed { this.writes_after_fail += 1; }
-        if this.fail_at != 0 && this.calls == this.fail_at { this.failed = true; return Poll::Ready(Err(io::ErrorKind::BrokenPipe.into())); }
+        if this.failed { this.writes_after_fail += 1; unsafe { GW_AFTER_FAIL += 1; } }
+        if this.fail_at != 0 && this.calls == this.fail_at {
+            this.failed = true; unsafe { GW_FAILED = true; }
+            // a failing transport: either an error, or a zero-length write for a non-empty buffer
+            return if this.fail_zero { Poll::Ready(Ok(0)) } else { Poll::Ready(Err(io::ErrorKind::BrokenPipe.into())) };
+        }
         if this.pend_budget > 0 && kani::any() { this.pend_budget -= 1; return Poll::Pending; }
         let mut k = buf.len();
         if this.partial_budget > 0 && k > 1 {
@@ -616,7 +728,7 @@ fn glue_request<'a>(cfg: &'a Config, r: CountR, w: CountW, role: fcgi::Role, str
     Request { parser, input: r, output: Arc::new(Mutex::new(w)), lock: None, writeable }
 }
 
-fn glue_poll_read_case(buffered_max: usize, pend_sym: bool, d_fixed: Option<usize>, mid_reply: bool) {
+fn glue_poll_read_case(buffered_max: usize, pend_sym: bool, d_fixed: Option<usize>, mid_reply: bool, wfault: bool, filter: bool) {
     let cfg = sv::cfg1();
     let gs: [u8; 8] = kani::any();
     unsafe { sv::GS_STREAM = gs; sv::GS_ERR_BUDGET = 1; }
@@ -624,7 +736,21 @@ fn glue_poll_read_case(buffered_max: usize, pend_sym: bool, d_fixed: Option<usiz
     let pending_out: usize = if pend_sym && kani::any() { 2 } else { 0 };
     let mut r = CountR::new(2, 1);
     r.fail = if kani::any() { 1 } else { 0 };
-    let mut req = glue_request(&cfg, r, CountW::new(1, 1), fcgi::Role::Responder, Some(fcgi::RecordType::Stdin), true, buffered, pending_out);
+    let mut w0 = CountW::new(1, 1);
+    unsafe { GW_FAILED = false; GW_AFTER_FAIL = 0; }
+    if wfault {
+        // write-side fault injection (C12): the 1st or 2nd write call fails, with an error or with a zero-length write
+        w0.fail_at = if kani::any() { 1 } else { 2 };
+        w0.fail_zero = kani::any();
+    }
+    let fail_zero = w0.fail_zero;
+    // `filter`: a Filter request that is not writeable yet, reading Stdin (not its final stream) or Data (final)
+    let on_final = !filter || kani::any();
+    let mut req = if filter {
+        glue_request(&cfg, r, w0, fcgi::Role::Filter, Some(if on_final { fcgi::RecordType::Data } else { fcgi::RecordType::Stdin }), false, buffered, pending_out)
+    } else {
+        glue_request(&cfg, r, w0, fcgi::Role::Responder, Some(fcgi::RecordType::Stdin), true, buffered, pending_out)
+    };
     if mid_reply {
         // an earlier poll already put the first byte of a 2-byte reply on the wire and is holding the output lock
         kani::assume(pending_out == 2 && buffered == 0);
@@ -639,6 +765,7 @@ fn glue_poll_read_case(buffered_max: usize, pend_sym: bool, d_fixed: Option<usiz
     let mut b = [0xEEu8; 4];
     match Pin::new(&mut req).poll_read(&mut cx, &mut b[..d]) {
         Poll::Ready(Ok(n)) => {
+            assert!(!unsafe { GW_FAILED }, "C12: a failed or zero-length write was swallowed (the read succeeded)");
             assert!(n <= d, "more bytes reported than the caller's buffer holds");
             let mut i = 0;
             while i < n { assert!(b[i] == gs[i], "C09: bytes handed to the caller are not the stream's bytes in order, each once"); i += 1; }
@@ -650,11 +777,22 @@ fn glue_poll_read_case(buffered_max: usize, pend_sym: bool, d_fixed: Option<usiz
             }
             if n == 0 && d > 0 { assert!(unsafe { sv::GS_END }, "C09/C12: a 0-byte read (end of file) although the stream has not ended"); kani::cover!(true, "end of stream reported"); }
             assert!(!req.input.said_eof && !req.input.said_err || n > 0 || unsafe { sv::GS_END }, "C12: transport EOF/error turned into a successful empty read");
+            if filter && on_final && unsafe { sv::GS_PARSE_CALLS } > 0 && (n > 0 || unsafe { sv::GS_END }) {
+                assert!(req.writeable, "C09: data / end of the final input stream arrived but the request did not become writeable");
+                kani::cover!(true, "request became writeable on its final stream");
+            }
             kani::cover!(n == 3 && buffered == 0, "three bytes delivered directly into the caller's buffer");
             kani::cover!(d == 0, "zero-length caller buffer");
         }
         Poll::Ready(Err(e)) => {
             let k = e.kind(); std::mem::forget(e);
+            if unsafe { GW_FAILED } {
+                assert!(k == if fail_zero { io::ErrorKind::WriteZero } else { io::ErrorKind::BrokenPipe }, "C12: a write failure must surface as the transport's error, a zero-length write as WriteZero");
+                assert!(unsafe { GW_AFTER_FAIL } == 0, "C12: something was written after a failed write");
+                kani::cover!(fail_zero, "zero-length write reported as WriteZero");
+                kani::cover!(!fail_zero, "write error passed on");
+            }
+            assert!(req.input.empty_reads == 0 || unsafe { sv::GS_UNCONSUMED } == sv::B, "C12/C07: the transport was offered an empty buffer (its 0-byte answer is then taken for end of file) although the parser's buffer has reclaimable space");
             if req.input.said_eof { assert!(k == io::ErrorKind::UnexpectedEof, "C12: end of file inside a stream must surface as UnexpectedEof"); }
             if req.input.said_err { assert!(k == io::ErrorKind::BrokenPipe, "C12: the transport's read error must be passed on unchanged"); }
             kani::cover!(k == io::ErrorKind::UnexpectedEof, "EOF inside the stream");
@@ -662,6 +800,7 @@ fn glue_poll_read_case(buffered_max: usize, pend_sym: bool, d_fixed: Option<usiz
             kani::cover!(k == io::ErrorKind::BrokenPipe, "transport error passed on");
         }
         Poll::Pending => {
+            assert!(!unsafe { GW_FAILED }, "C12: a failed or zero-length write leaves the operation pending (the task would spin or hang) instead of ending it with an error");
             if req.input.last_pending {
                 // suspended on the reader
                 assert!(req.parser.output_buffer().is_empty(), "C08:reply-owed-at-read-pending: waiting for client input while replies are still in the parser's output buffer");
@@ -682,11 +821,12 @@ fn glue_poll_read_case(buffered_max: usize, pend_sym: bool, d_fixed: Option<usiz
             assert!(req.parser.stream_buffer().len() == unsafe { sv::GS_POS }, "C09: stream bytes were delivered by the parser into the caller's buffer but the call returned Pending (bytes lost)");
         }
     }
+    if filter { assert!(!req.writeable || on_final, "C09: the request reports itself writeable although an input stream before its last one is still active"); }
     std::mem::forget(req);
 }
 
 
-// @harness name=c09_glue_poll_read_min props=C09,C08,C12 tier=thorough timeout=1800 rmbody=ioerr,nogrow,nowaiters mem=20 unwindset=Request::<'_,.*>::poll_input$:5;Request::<'_,.*>::poll_output$:4;drop_glue::<.slab::Entry<.*>.>$:2 dead=3
+// @harness name=c09_glue_poll_read_min props=C09,C08,C12 tier=thorough timeout=1800 rmbody=ioerr,nogrow,nowaiters mem=20 unwindset=Request::<'_,.*>::poll_input$:5;Request::<'_,.*>::poll_output$:4;drop_glue::<.slab::Entry<.*>.>$:2 dead=6
 // @bound ONE poll of Request::poll_read against the parser contract: nothing buffered, no pending replies, caller buffer of 4 bytes; reader: <= 2 reads of symbolic size, <= 1 Pending, then EOF or error; writer: any split (<= 1 short write), <= 1 Pending; parser contract: any consumption / replies / delivery (<= 3 bytes per call) / end of stream / <= 1 error. Sequences of polls follow by induction over the symbolic state
 // @functions Request::poll_read, Request::poll_input, Request::poll_output, RepeatableLockFuture::poll
 #[kani::proof]
@@ -694,9 +834,9 @@ fn glue_poll_read_case(buffered_max: usize, pend_sym: bool, d_fixed: Option<usiz
 #[kani::stub(std::hash::RandomState::new, fixed_random_state)]
 #[kani::stub(stream::Parser::parse, sv::parse_contract)]
 #[kani::stub(stream::Parser::compress, sv::compress_contract)]
-fn c09_glue_poll_read_min() { glue_poll_read_case(0, false, Some(4), false); }
+fn c09_glue_poll_read_min() { glue_poll_read_case(0, false, Some(4), false, false, false); }
 
-// @harness name=c09_glue_poll_read_pending props=C09,C08,C12 tier=quick timeout=2400 rmbody=ioerr,nogrow,nowaiters mem=20 unwindset=Request::<'_,.*>::poll_input$:5;Request::<'_,.*>::poll_output$:4;drop_glue::<.slab::Entry<.*>.>$:2 dead=2
+// @harness name=c09_glue_poll_read_pending props=C09,C08,C12 tier=thorough timeout=2400 rmbody=ioerr,nogrow,nowaiters mem=20 unwindset=Request::<'_,.*>::poll_input$:5;Request::<'_,.*>::poll_output$:4;drop_glue::<.slab::Entry<.*>.>$:2 dead=5
 // @bound ONE poll of Request::poll_read against the parser contract: nothing buffered, 0 or 2 reply bytes pending, caller buffer 0..4; reader: <= 2 reads of symbolic size, <= 1 Pending, then EOF or error; writer: any split (<= 1 short write), <= 1 Pending; parser contract: any consumption / replies / delivery (<= 3 bytes per call) / end of stream / <= 1 error. Sequences of polls follow by induction over the symbolic state
 // @functions Request::poll_read, Request::poll_input, Request::poll_output, RepeatableLockFuture::poll
 #[kani::proof]
@@ -704,9 +844,9 @@ fn c09_glue_poll_read_min() { glue_poll_read_case(0, false, Some(4), false); }
 #[kani::stub(std::hash::RandomState::new, fixed_random_state)]
 #[kani::stub(stream::Parser::parse, sv::parse_contract)]
 #[kani::stub(stream::Parser::compress, sv::compress_contract)]
-fn c09_glue_poll_read_pending() { glue_poll_read_case(0, true, None, false); }
+fn c09_glue_poll_read_pending() { glue_poll_read_case(0, true, None, false, false, false); }
 
-// @harness name=c09_glue_poll_read_buffered props=C09,C08,C12 tier=quick timeout=2400 rmbody=ioerr,nogrow,nowaiters mem=20 unwindset=Request::<'_,.*>::poll_input$:5;Request::<'_,.*>::poll_output$:4;drop_glue::<.slab::Entry<.*>.>$:2 dead=1
+// @harness name=c09_glue_poll_read_buffered props=C09,C08,C12 tier=quick timeout=2400 rmbody=ioerr,nogrow,nowaiters mem=20 unwindset=Request::<'_,.*>::poll_input$:5;Request::<'_,.*>::poll_output$:4;drop_glue::<.slab::Entry<.*>.>$:2 dead=4
 // @bound ONE poll of Request::poll_read against the parser contract: 0..2 stream bytes buffered, 0 or 2 reply bytes pending, caller buffer 0..4; reader: <= 2 reads of symbolic size, <= 1 Pending, then EOF or error; writer: any split (<= 1 short write), <= 1 Pending; parser contract: any consumption / replies / delivery (<= 3 bytes per call) / end of stream / <= 1 error. Sequences of polls follow by induction over the symbolic state
 // @functions Request::poll_read, Request::poll_input, Request::poll_output, RepeatableLockFuture::poll
 #[kani::proof]
@@ -714,7 +854,7 @@ fn c09_glue_poll_read_pending() { glue_poll_read_case(0, true, None, false); }
 #[kani::stub(std::hash::RandomState::new, fixed_random_state)]
 #[kani::stub(stream::Parser::parse, sv::parse_contract)]
 #[kani::stub(stream::Parser::compress, sv::compress_contract)]
-fn c09_glue_poll_read_buffered() { glue_poll_read_case(2, true, None, false); }
+fn c09_glue_poll_read_buffered() { glue_poll_read_case(2, true, None, false, false, false); }
 
 // @harness name=c08_glue_parse_request props=C08,C07,C12 tier=quick timeout=2400 rmbody=ioerr,nogrow,nodropreq mem=30 unwindset=Token::parse_request::<.*>::.closure.0.$:4;WriteAll<.*>.as.futures_util::Future>::poll$:3
 // @bound Token::parse_request against the request parser's contract (any consumption, 0|2 reply bytes per call, done or not): 0..24 bytes handed over by the previous request; reader: 1 byte then EOF/error, <= 1 Pending; writer: <= 1 short write, <= 1 Pending; polled up to 3 times
@@ -843,9 +983,76 @@ fn close_drain_case() {
     }
 }
 
+// ------------------------------------------------------------------------------------------------ C11 / C07: close() of a request that is not writeable yet, poll_input replaced by its contract
+// What poll_input really does is the subject of the c09_glue_* harnesses; here it is any of: Ok (final stream reached,
+// request now writeable), ConnectionAborted (the client aborted the request), another error, or Pending once.
+pub(crate) static mut GPI_CALLS: usize = 0;
+pub(crate) static mut GPI_PEND: usize = 0;
+pub(crate) static mut GPI_RESULT: u8 = 0;      // 1 = Ok, 2 = ConnectionAborted, 3 = other error
+pub(crate) fn poll_input_contract<'a, R: AsyncRead + Unpin, W: AsyncWrite + Unpin>(this: Pin<&mut Request<'a, R, W>>, _cx: &mut Context<'_>, dest: Option<&mut [u8]>) -> Poll<io::Result<usize>> where 'a: 'a {
+    assert!(dest.is_none(), "close() must not read stream data into a caller buffer");
+    let this = this.get_mut();
+    unsafe {
+        GPI_CALLS += 1;
+        assert!(GPI_RESULT == 0, "poll_input polled again after it completed");
+        if GPI_PEND > 0 && kani::any() { GPI_PEND -= 1; return Poll::Pending; }
+        let m: u8 = kani::any();
+        kani::assume(1 <= m && m <= 3);
+        GPI_RESULT = m;
+        match m {
+            1 => { this.writeable = true; Poll::Ready(Ok(0)) }
+            2 => Poll::Ready(Err(io::ErrorKind::ConnectionAborted.into())),
+            _ => Poll::Ready(Err(io::ErrorKind::InvalidData.into())),
+        }
+    }
+}
+
+// @harness name=c11_close_not_writeable props=C11,C07 tier=quick timeout=2400 rmbody=ioerr,nogrow,nonv,nowaiters,nodropreq,noparse mem=30 dead=1 unwindset=WriteAll<.*>.as.futures_util::Future>::poll$:3;drop_glue::<.slab::Entry<.*>.>$:2
+// @bound Request::close(status) for a request that is NOT yet writeable (handler returned before its last input stream ended), at a record boundary, KeepConn set; poll_input replaced by its contract (Ok / ConnectionAborted / other error; no Pending: one poll); ExitStatus Overloaded or Complete(any code, incl. 'ABRT'); writer counting, accepts everything at once
+// @functions Request::close, Request::writeable, make_request_epilogue, stream::Parser::{set_stream,into_request_parser}
+#[kani::proof]
+#[kani::unwind(6)]
+#[kani::stub(std::hash::RandomState::new, fixed_random_state)]
+#[kani::stub(Request::poll_input, poll_input_contract)]
+#[kani::stub(alloc::fmt::format, crate::verif_kani::fmt_format_stub)]
+fn c11_close_not_writeable() {
+    let cfg = sv::cfg1();
+    unsafe { GPI_CALLS = 0; GPI_PEND = 0; GPI_RESULT = 0; }
+    let raw = [0u8; sv::B];
+    let mut parser = sv::mk_code(&cfg, raw, (0, 0, 0, 0), 1, fcgi::Role::Responder, 7, Some(fcgi::RecordType::Stdin), 0, 0, Vec::with_capacity(32), 0);
+    parser.request.flags = fcgi::RequestFlags::from(1);
+    let req = Request { parser, input: CountR::new(0, 0), output: Arc::new(Mutex::new(CountW::new(0, 0))), lock: None, writeable: false };
+    let status = if kani::any() { ExitStatus::Overloaded } else { ExitStatus::Complete(kani::any()) };
+    let mut fut = std::mem::ManuallyDrop::new(req.close(status));
+    let mut polls = 0;
+    let res = loop {
+        polls += 1;
+        assert!(polls <= 1, "close() must make progress");
+        let pinned = unsafe { Pin::new_unchecked(&mut *fut) };
+        match poll_once(pinned) { Poll::Ready(r) => break r, Poll::Pending => { kani::cover!(true, "close() suspended while waiting for the final stream"); } }
+    };
+    let m = unsafe { GPI_RESULT };
+    match res {
+        Ok((rp, _r, w)) => {
+            assert!(m != 3, "C12: close() succeeded although reading the input failed with a non-abort error");
+            // an aborted request gets its EndRequest (16 bytes) without stream ends; a writeable one also the two empty stream records
+            assert!(w.len == if m == 1 { 32 } else { 16 }, "C07/C11: wrong number of epilogue bytes for the request");
+            kani::cover!(m == 2, "C11: client abort seen by close() is tolerated, EndRequest still sent, connection reusable");
+            kani::cover!(m == 1, "final stream reached inside close()");
+            std::mem::forget(rp); std::mem::forget(w);
+        }
+        Err(e) => {
+            assert!(m == 3, "C11: close() failed (no EndRequest, connection dropped) although the only irregularity was a client abort - or none");
+            assert!(e.kind() == io::ErrorKind::InvalidData, "the input error must be passed on");
+            std::mem::forget(e);
+            kani::cover!(true, "other input errors end the connection");
+        }
+    }
+}
+
 // ------------------------------------------------------------------------------------------------ C08 / C11 / C12: record_boundary (draining unread input) on its own
 
-// @harness name=c08_glue_record_boundary props=C08,C11,C12 tier=manual timeout=1800 rmbody=ioerr,nogrow,nowaiters,nodropreq mem=24 unwindset=Request::<'_,.*>::record_boundary::.closure.0.$:3;Request::<'_,.*>::poll_output$:3;drop_glue::<.slab::Entry<.*>.>$:2
+// @harness name=c08_glue_record_boundary props=C08,C11,C12 tier=manual timeout=1800 rmbody=ioerr,nogrow,nowaiters,nodropreq mem=30 unwindset=Request::<'_,.*>::record_boundary::.closure.0.$:3;Request::<'_,.*>::poll_output$:3;drop_glue::<.slab::Entry<.*>.>$:2
 // @bound Request::record_boundary in the middle of an unread record (payload_rem = 1, active stream None) against the parser contract (any consumption, replies, boundary reached or not, <= 1 error: AbortRequest or a fatal one); reader: no more bytes (EOF) after <= 1 Pending; writer counting, whole writes, <= 1 Pending; polled up to 3 times
 // @functions Request::record_boundary, Request::poll_output
 #[kani::proof]
@@ -853,12 +1060,36 @@ fn close_drain_case() {
 #[kani::stub(std::hash::RandomState::new, fixed_random_state)]
 #[kani::stub(stream::Parser::parse, sv::parse_contract)]
 #[kani::stub(stream::Parser::compress, sv::compress_contract)]
-fn c08_glue_record_boundary() {
+fn c08_glue_record_boundary() { rb_case(0, 0, 1, 1, 3); }
+
+// @harness name=c08_rb_pending props=C08,C11,C12,C07 tier=quick timeout=2400 rmbody=ioerr,nogrow,nowaiters,nodropreq mem=30 unwindset=Request::<'_,.*>::record_boundary::.closure.0.$:3;Request::<'_,.*>::poll_output$:3;drop_glue::<.slab::Entry<.*>.>$:2 dead=1
+// @bound ONE poll of Request::record_boundary (the draining step of close()) in the middle of an unread record (payload_rem = 1, active stream None) against the parser contract (any consumption, 0|2 reply bytes per call, boundary reached or not, <= 1 error: AbortRequest or a fatal one); reader: <= 1 Pending, one byte, then EOF; writer: <= 1 Pending, whole writes. Checked at the first suspension and at completion; the resumption after a Pending is not polled
+// @functions Request::record_boundary, Request::poll_output
+#[kani::proof]
+#[kani::unwind(6)]
+#[kani::stub(std::hash::RandomState::new, fixed_random_state)]
+#[kani::stub(stream::Parser::parse, sv::parse_contract)]
+#[kani::stub(stream::Parser::compress, sv::compress_contract)]
+fn c08_rb_pending() { rb_case(1, 0, 1, 1, 1); }
+
+// @harness name=c07_rb_two_reads props=C07 tier=quick timeout=2400 rmbody=ioerr,nogrow,nowaiters,nodropreq mem=30 unwindset=Request::<'_,.*>::record_boundary::.closure.0.$:4;Request::<'_,.*>::poll_output$:3;drop_glue::<.slab::Entry<.*>.>$:2 dead=2
+// @bound Request::record_boundary draining a long unread body: the transport delivers two reads of any size 1..24 (the first may fill the whole 24-byte buffer), EOF at the third call; no Pending on either side (one poll); parser contract as above. The transport must never be offered an empty buffer while the parser has reclaimable space (a 0-byte answer would be taken for end of file)
+// @functions Request::record_boundary, stream::Parser::{compress,input_buffer} (geometry), Request::poll_output
+#[kani::proof]
+#[kani::unwind(6)]
+#[kani::stub(std::hash::RandomState::new, fixed_random_state)]
+#[kani::stub(stream::Parser::parse, sv::parse_contract)]
+#[kani::stub(stream::Parser::compress, sv::compress_contract)]
+fn c07_rb_two_reads() { rb_case(48, 3, 0, 0, 1); }
+
+fn rb_case(avail: usize, max_calls: usize, r_pend: usize, w_pend: usize, max_polls: usize) {
     let cfg = sv::cfg1();
     unsafe { sv::GS_ERR_BUDGET = 1; sv::GS_OUT_TOTAL = 0; }
     let raw = [0u8; sv::B];
     let parser = sv::mk_code(&cfg, raw, (0, 0, 0, 0), 1, fcgi::Role::Responder, 7, None, 1, 0, Vec::with_capacity(32), 0);
-    let mut req = Request { parser, input: CountR::new(0, 1), output: Arc::new(Mutex::new(CountW::new(1, 0))), lock: None, writeable: true };
+    let mut r = CountR::new(avail, r_pend);
+    r.max_calls = max_calls;
+    let mut req = Request { parser, input: r, output: Arc::new(Mutex::new(CountW::new(w_pend, 0))), lock: None, writeable: true };
     let rp: *const CountR = &req.input;
     let wp: *const Mutex<CountW> = Arc::as_ptr(&req.output);
     let pp: *const stream::Parser<'_> = &req.parser;
@@ -867,7 +1098,7 @@ fn c08_glue_record_boundary() {
         let mut fut = std::mem::ManuallyDrop::new(req.record_boundary());
         loop {
             polls += 1;
-            assert!(polls <= 3, "record_boundary must make progress");
+            assert!(polls <= max_polls, "record_boundary must make progress");
             let pinned = unsafe { Pin::new_unchecked(&mut *fut) };
             match poll_once(pinned) {
                 Poll::Pending => {
@@ -879,20 +1110,23 @@ fn c08_glue_record_boundary() {
                         kani::cover!(unsafe { sv::GS_OUT_TOTAL } > 0, "draining: reply flushed before waiting");
                         std::mem::forget(g);
                     } else { kani::cover!(true, "suspended on the writer"); }
+                    if polls == max_polls { break; }      // single-poll instances stop at the first suspension
                 }
                 Poll::Ready(res) => {
                     let (aborts, fatals) = unsafe { sv::GS_ERRS };
                     let rr = unsafe { &*rp };
+                    assert!(rr.empty_reads == 0 || unsafe { sv::GS_UNCONSUMED } == sv::B, "C07/C12: while draining, the transport was offered an empty buffer (its 0-byte answer is taken for end of file) although the parser's buffer has reclaimable space");
                     match &res {
                         Ok(()) => {
                             assert!(unsafe { (*pp).is_record_boundary() }, "record_boundary returned Ok off a record boundary");
                             assert!(fatals == 0, "C12: record_boundary succeeded although the parser reported a fatal error");
                             kani::cover!(aborts == 1, "C11: an abort seen while draining is tolerated");
+                            kani::cover!(rr.calls == 2, "boundary reached after two reads");
                         }
                         Err(e) => {
-                            assert!(fatals == 1 || rr.said_eof || rr.said_err, "C11: draining failed although the only irregularity was a client abort (or none)");
+                            assert!(fatals == 1 || rr.said_eof || rr.said_err || rr.empty_reads > 0, "C11: draining failed although the only irregularity was a client abort (or none)");
                             if rr.said_eof && fatals == 0 { assert!(e.kind() == io::ErrorKind::UnexpectedEof, "C12: EOF while draining must surface as UnexpectedEof"); }
-                            if fatals == 1 && !rr.said_eof && !rr.said_err { assert!(e.kind() == io::ErrorKind::InvalidData, "C12: a fatal protocol error must surface as InvalidData"); }
+                            if fatals == 1 && !rr.said_eof && !rr.said_err && rr.empty_reads == 0 { assert!(e.kind() == io::ErrorKind::InvalidData, "C12: a fatal protocol error must surface as InvalidData"); }
                             kani::cover!(rr.said_eof, "EOF while draining");
                         }
                     }
@@ -906,7 +1140,7 @@ fn c08_glue_record_boundary() {
 }
 
 
-// @harness name=c10_glue_reply_lock props=C10,C09,C08 tier=quick timeout=2400 rmbody=ioerr,nogrow,nowaiters mem=20 unwindset=Request::<'_,.*>::poll_input$:5;Request::<'_,.*>::poll_output$:4;drop_glue::<.slab::Entry<.*>.>$:2 dead=1
+// @harness name=c10_glue_reply_lock props=C10 tier=quick timeout=2400 rmbody=ioerr,nogrow,nowaiters mem=20 unwindset=Request::<'_,.*>::poll_input$:5;Request::<'_,.*>::poll_output$:4;drop_glue::<.slab::Entry<.*>.>$:2 dead=4
 // @bound ONE poll of Request::poll_read from the state "first byte of a 2-byte management reply already written, output lock held by the request": writer <= 1 Pending / <= 1 short write, reader <= 2 reads / <= 1 Pending, parser contract as in c09_glue_poll_read_*: the lock stays with the request until the reply is complete
 // @functions Request::poll_output, RepeatableLockFuture::poll, Request::poll_input
 #[kani::proof]
@@ -914,11 +1148,71 @@ fn c08_glue_record_boundary() {
 #[kani::stub(std::hash::RandomState::new, fixed_random_state)]
 #[kani::stub(stream::Parser::parse, sv::parse_contract)]
 #[kani::stub(stream::Parser::compress, sv::compress_contract)]
-fn c10_glue_reply_lock() { glue_poll_read_case(0, true, None, true); }
+fn c10_glue_reply_lock() { glue_poll_read_case(0, true, None, true, false, false); }
+
+// @harness name=c12_glue_write_fault props=C12 tier=quick timeout=2400 rmbody=ioerr,nogrow,nowaiters mem=20 unwindset=Request::<'_,.*>::poll_input$:5;Request::<'_,.*>::poll_output$:4;drop_glue::<.slab::Entry<.*>.>$:2 dead=4
+// @bound ONE poll of Request::poll_read as in c09_glue_poll_read_pending, with a write-side fault: the 1st or 2nd write call on the transport returns an error (BrokenPipe) or a zero-length write; the poll must then end with that error resp. WriteZero, never Pending or success, and nothing is written afterwards
+// @functions Request::poll_output (write error / WriteZero), Request::poll_input
+#[kani::proof]
+#[kani::unwind(8)]
+#[kani::stub(std::hash::RandomState::new, fixed_random_state)]
+#[kani::stub(stream::Parser::parse, sv::parse_contract)]
+#[kani::stub(stream::Parser::compress, sv::compress_contract)]
+fn c12_glue_write_fault() { glue_poll_read_case(0, true, Some(4), false, true, false); }
+
+// @harness name=c09_glue_writeable_gate props=C09 tier=quick timeout=2400 rmbody=ioerr,nogrow,nowaiters mem=20 unwindset=Request::<'_,.*>::poll_input$:5;Request::<'_,.*>::poll_output$:4;drop_glue::<.slab::Entry<.*>.>$:2 dead=5
+// @bound ONE poll of Request::poll_read as in c09_glue_poll_read_min for a Filter request that is not writeable yet, with Stdin (not final) or Data (final) as the active stream: the request becomes writeable only on its final stream, and does become writeable when data or the end of that stream arrives
+// @functions Request::poll_input (writeable gating), Request::is_final_stream, Role::next_input_stream
+#[kani::proof]
+#[kani::unwind(8)]
+#[kani::stub(std::hash::RandomState::new, fixed_random_state)]
+#[kani::stub(stream::Parser::parse, sv::parse_contract)]
+#[kani::stub(stream::Parser::compress, sv::compress_contract)]
+fn c09_glue_writeable_gate() { glue_poll_read_case(0, false, Some(4), false, false, true); }
+
+// @harness name=c09_new_writeable props=C09 tier=quick timeout=600 rmbody=ioerr,nogrow,nowaiters,nodropreq mem=12
+// @bound Request::new for every role: writeable from the start iff the role has at most one input stream (Responder, Authorizer), not for Filter; output_stream() of a writeable request carries the request's id and the stream type
+// @functions Request::new, Request::is_writeable, Request::output_stream
+#[kani::proof]
+#[kani::unwind(4)]
+#[kani::stub(std::hash::RandomState::new, fixed_random_state)]
+fn c09_new_writeable() {
+    let cfg = sv::cfg1();
+    let role = sv::any_role();
+    let id: u16 = kani::any();
+    kani::assume(id != 0);
+    let parser = sv::mk_code(&cfg, [0u8; sv::B], (0, 0, 0, 0), 1, role, id, role.next_input_stream(None), 0, 0, Vec::with_capacity(32), 0);
+    let req = Request::new(parser, CountR::new(0, 0), CountW::new(0, 0));
+    assert!(req.is_writeable() == (role != fcgi::Role::Filter), "C09: a new request is writeable iff its role has at most one input stream");
+    if req.is_writeable() {
+        let sw = req.output_stream(fcgi::RecordType::Stdout);
+        assert!(sw.head.request_id == id && sw.head.rtype == fcgi::RecordType::Stdout && sw.lock.is_none(), "output stream writer not bound to this request / stream");
+        kani::cover!(role == fcgi::Role::Authorizer, "authorizer writes at once");
+        std::mem::forget(sw);
+    }
+    std::mem::forget(req);
+}
+
+// @harness name=c09_output_stream_gate props=C09 tier=quick timeout=600 rmbody=ioerr,nogrow,nowaiters,nodropreq mem=12
+// @bound a Filter request that has not reached its final input stream: output_stream() must refuse (panic) - the harness passes only if the call panics (kani::should_panic)
+// @functions Request::output_stream
+#[kani::proof]
+#[kani::unwind(4)]
+#[kani::should_panic]
+#[kani::stub(std::hash::RandomState::new, fixed_random_state)]
+fn c09_output_stream_gate() {
+    let cfg = sv::cfg1();
+    let parser = sv::mk_code(&cfg, [0u8; sv::B], (0, 0, 0, 0), 1, fcgi::Role::Filter, 7, Some(fcgi::RecordType::Stdin), 0, 0, Vec::with_capacity(32), 0);
+    let req = Request::new(parser, CountR::new(0, 0), CountW::new(0, 0));
+    kani::cover!(!req.is_writeable(), "Filter request not writeable before its final stream");
+    let sw = req.output_stream(fcgi::RecordType::Stdout);
+    std::mem::forget(sw);
+    std::mem::forget(req);
+}
 
 // ------------------------------------------------------------------------------------------------ C09: AsyncBufRead (poll_fill_buf / consume) against the parser contract
 
-// @harness name=c09_glue_fill_buf props=C09,C08 tier=quick timeout=2400 rmbody=ioerr,nogrow,nowaiters mem=20 unwindset=Request::<'_,.*>::poll_input$:5;Request::<'_,.*>::poll_output$:4;drop_glue::<.slab::Entry<.*>.>$:2
+// @harness name=c09_glue_fill_buf props=C09 tier=quick timeout=2400 rmbody=ioerr,nogrow,nowaiters mem=20 unwindset=Request::<'_,.*>::poll_input$:5;Request::<'_,.*>::poll_output$:4;drop_glue::<.slab::Entry<.*>.>$:2
 // @bound ONE poll of Request::poll_fill_buf followed by consume(k) against the parser contract: 0..2 stream bytes already buffered, 0 or 2 reply bytes pending; reader <= 2 reads, <= 1 Pending, then EOF/error; writer <= 1 short write, <= 1 Pending; parser contract as in c09_glue_poll_read_*
 // @functions Request::poll_fill_buf, Request::consume, Request::poll_input (dest = None), stream::Parser::{stream_buffer,consume_stream}
 #[kani::proof]
